@@ -83,7 +83,7 @@ pub struct Hub {
     pub inner: Inner,
 }
 
-#[derive(Clone, Debug, Serialize, Deserialize, PartialEq, Eq)]
+#[derive(Clone, Copy, Debug, Serialize, Deserialize, PartialEq, Eq)]
 pub enum Mutation {
     None,
     BitFlip(u32),
@@ -201,7 +201,7 @@ fn special() -> impl Strategy<Value = Special> {
     ]
 }
 
-fn mutation() -> impl Strategy<Value = Mutation> {
+pub fn mutation() -> impl Strategy<Value = Mutation> {
     prop_oneof![
         3 => any::<u32>().prop_map(Mutation::BitFlip),
         4 => (0u16..64, special()).prop_map(|(i, s)| Mutation::WordSet(i, s)),
@@ -214,7 +214,7 @@ fn mutation() -> impl Strategy<Value = Mutation> {
     ]
 }
 
-fn apply(b: &mut Vec<u8>, m: &Mutation) {
+pub fn apply(b: &mut Vec<u8>, m: &Mutation) {
     let words = b.len() / 32;
     match m {
         Mutation::None => {}
